@@ -84,6 +84,9 @@ def rel(px, py, dt):
 
 # ---------------------------------------------------------------------------------------------
 # calling the code under test
+FORMS = ("0d_0d", "0d_s", "s_0d", "list", "1d")       # the dispatch branches of diff_ulp besides scalar / array calls
+
+
 class Caller:
     def __init__(self, utils):
         self.utils = utils
@@ -92,11 +95,26 @@ class Caller:
     def default_flush(self):
         return 1 if bool(getattr(self.utils, "default_flush_subnormals", False)) else 0
 
-    def d(self, x, y, flush, default=False):
+    def d(self, x, y, flush, default=False, form="scalar"):
+        """form: how the caller phrases the two operands - every dispatch branch of diff_ulp is a way to ask the same question"""
         self.ncalls += 1
+        if form == "0d_0d":
+            x, y = numpy.array(x), numpy.array(y)
+        elif form == "0d_s":
+            x = numpy.array(x)
+        elif form == "s_0d":
+            y = numpy.array(y)
+        elif form == "list":
+            x, y = [x], [y]
+        elif form == "1d":
+            x, y = numpy.array([x]), numpy.array([y])
         if default:
-            return int(self.utils.diff_ulp(x, y))
-        return int(self.utils.diff_ulp(x, y, flush_subnormals=bool(flush)))
+            r = self.utils.diff_ulp(x, y)
+        else:
+            r = self.utils.diff_ulp(x, y, flush_subnormals=bool(flush))
+        if form == "1d":
+            r = r[0]
+        return int(r)
 
     def witness(self, pat, dt, flush):
         """recorded d(x, +0) in flush mode for operands in or near the subnormal range."""
@@ -126,8 +144,9 @@ def build(c, rc):
             ev.update(x=bits.nat(rc["x"]), y=bits.nat(rc["y"]), r=[0, []], rr=[0, []])
             ev["wx"] = c.witness(rc["x"], dt, flush)
             ev["wy"] = c.witness(rc["y"], dt, flush)
-            ev["r"] = bits.zint(c.d(x, y, flush, default))
-            ev["rr"] = bits.zint(c.d(y, x, flush, default))
+            form = rc.get("mode") if rc.get("mode") in FORMS else "scalar"
+            ev["r"] = bits.zint(c.d(x, y, flush, default, form))
+            ev["rr"] = bits.zint(c.d(y, x, flush, default, form))
             return [ev]
         if op == "da":
             # one array call; one "d" event per element
@@ -152,8 +171,9 @@ def build(c, rc):
             for k, p in zip(["xr", "xi", "yr", "yi"], parts):
                 ev["w" + k] = c.witness(p, dt, flush)
             ev.update(r=[0, []], rr=[0, []])
-            ev["r"] = bits.zint(c.d(cx, cy, flush))
-            ev["rr"] = bits.zint(c.d(cy, cx, flush))
+            form = rc.get("mode") if rc.get("mode") in FORMS else "scalar"
+            ev["r"] = bits.zint(c.d(cx, cy, flush, False, form))
+            ev["rr"] = bits.zint(c.d(cy, cx, flush, False, form))
             return [ev]
         if op == "chain":
             pats = rc["xs"]
@@ -414,6 +434,12 @@ def run(tier, seed):
                 px, py = pats[dt]
                 for flush in (0, 1):
                     rcs.append(dict(op="d", fmt=dt, flush=flush, x=px, y=py, mode="scalar"))
+                    # every other way of phrasing the same request (0-d arrays, mixed, lists, 1-d): all of them for the
+                    # pairs that involve a subnormal or a zero (where the options matter), one in rotation otherwise
+                    special = "sub" in (cls(px, dt), cls(py, dt)) or "zero" in (cls(px, dt), cls(py, dt))
+                    for fi, form in enumerate(FORMS):
+                        if special or (i + fi) % 5 == 0:
+                            rcs.append(dict(op="d", fmt=dt, flush=flush, x=px, y=py, mode=form))
                 if i % 7 == 0:
                     rcs.append(dict(op="d", fmt=dt, x=px, y=py, mode="default"))
         # array calls: rows of the shape matrix (46 pairs per call)
@@ -430,7 +456,8 @@ def run(tier, seed):
                     q[2] = q[0]          # equal real parts: the imaginary distance decides
                 if rng.random() < 0.3:
                     q[3] = pat_of_ord(clamp_ord(ord_of_pat(q[1], dt) + rng.randint(-3, 3), dt), dt)
-                rcs.append(dict(op="dc", fmt=dt, flush=rng.randrange(2), xr=q[0], xi=q[1], yr=q[2], yi=q[3]))
+                rcs.append(dict(op="dc", fmt=dt, flush=rng.randrange(2), xr=q[0], xi=q[1], yr=q[2], yi=q[3],
+                                mode=rng.choice(("scalar", "scalar") + FORMS)))
         for dt in DTYPES:
             for p in shaped[dt]:
                 rcs.append(dict(op="ulp", fmt=dt, x=p))
@@ -478,7 +505,7 @@ def run(tier, seed):
                 rcs = []
                 for i in range(nb):
                     px, py = random_pair(rng, dt)
-                    mode = "default" if i % 50 == 0 else "scalar"
+                    mode = "default" if i % 50 == 0 else FORMS[(i // 10) % len(FORMS)] if i % 10 == 3 else "scalar"
                     rcs.append(dict(op="d", fmt=dt, flush=rng.randrange(2), x=px, y=py, mode=mode))
                     R.nontrivial.add((px << 70) | (py << 3) | DTYPES.index(dt))
                 # a few array calls on the same kind of data
